@@ -182,6 +182,30 @@ def rand_cfg(rng: random.Random, gen: ModelGen, ent, multiclient: Optional[bool]
     return enc
 
 
+LONG_RUN = '/opt/toolchains/industrial-automation/controllers/firmware/platform/heating/zone-a/' \
+           'bin/generate-advanced-shell-wrapper'          # 120 characters without a blank
+
+
+def enlarge(rng: random.Random, enc: dict):
+    """Sizes beyond the usual in a configuration: a model file base name of about 100
+    characters (the shell's struct and file names with it), a namespace prefix of more than 64
+    characters, a copyright notice pasted as one line of some 300 characters, a creator text
+    that holds a path of 120 characters without a blank."""
+    directory = enc['filename'].rsplit('/', 1)[0] + '/' if '/' in enc['filename'] else ''
+    words = ['Temperature', 'Controller', 'Firmware', 'Platform', 'Heating', 'Zone', 'Industrial',
+             'Automation', 'Measurement', 'Configuration']
+    base = ''
+    while len(base) < 98:
+        base += rng.choice(words)
+    enc['filename'] = directory + base[:rng.choice([97, 100, 104])] + '.dzn'
+    enc['prefix'] = ['QZAcme', 'QZIndustrial', 'QZAutomation', 'QZControllers', 'QZFirmware',
+                     'QZPlatform', 'QZHeating', rng.choice(['QZZoneA', 'QZZoneB'])]
+    notice = 'Copyright (c) ' + ' '.join(rng.choice(words) for _ in range(40))
+    enc['copyright'] = notice[:rng.choice([253, 300, 400])]
+    enc['creator'] = rng.choice([LONG_RUN, 'generated by ' + LONG_RUN + ' --all', 'x' * 101])
+    enc['big'] = True
+
+
 def expected_semantics(enc: dict, info: Dict[str, Any]):
     return refcfg.judge(enc['provides'], enc['requires'], info['provides'], info['requires'],
                         info['injected'])
@@ -191,7 +215,7 @@ def shell_opts(rng: random.Random, want_multiclient: bool = False, small: bool =
                mc_decoys: str = 'random', mc_shape: Optional[int] = None,
                name_families: Optional[float] = None,
                ref_externs: Optional[float] = None, mc_enum_family: bool = False,
-               mc_no_outs: bool = False) -> GenOpts:
+               mc_no_outs: bool = False, big: bool = False) -> GenOpts:
     """Generator options for models that are meant to be wrapped in a shell."""
     return GenOpts(
         max_ns_depth=rng.choice([0, 1, 2, 3]), max_ns_children=rng.choice([1, 2]),
@@ -205,7 +229,7 @@ def shell_opts(rng: random.Random, want_multiclient: bool = False, small: bool =
         want_multiclient=want_multiclient, global_component=0.2, mc_decoys=mc_decoys,
         mc_shape=mc_shape, name_families=0.15 if name_families is None else name_families,
         ref_externs=0.25 if ref_externs is None else ref_externs, mc_enum_family=mc_enum_family,
-        mc_no_outs=mc_no_outs)
+        mc_no_outs=mc_no_outs, big=big)
 
 
 def gen_shell_case(rng: random.Random, want_multiclient: Optional[bool] = None,
@@ -213,12 +237,14 @@ def gen_shell_case(rng: random.Random, want_multiclient: Optional[bool] = None,
                    mc_position: Optional[str] = None, mc_shape: Optional[int] = None,
                    name_families: Optional[float] = None, accept=None,
                    ref_externs: Optional[float] = None, twins: bool = False,
-                   mc_enum_family: bool = False, mc_no_outs: bool = False):
-    """(gen, entry, cfg encoding, info): one model, one encapsulee, one valid configuration."""
+                   mc_enum_family: bool = False, mc_no_outs: bool = False, big: bool = False):
+    """(gen, entry, cfg encoding, info): one model, one encapsulee, one valid configuration.
+    `big`: sizes beyond the usual - ten and more ports / events, identifiers of 24..56
+    characters, a long model file name, prefix, copyright line and creator text."""
     wmc = rng.random() < 0.4 if want_multiclient is None else want_multiclient
     for _attempt in range(400):
         gen = ModelGen(rng, shell_opts(rng, wmc, small, mc_decoys, mc_shape, name_families,
-                                       ref_externs, mc_enum_family, mc_no_outs))
+                                       ref_externs, mc_enum_family, mc_no_outs, big))
         gen.build_skeleton()
         o = gen.o
         for _ in range(gen._rint(o.n_externs)):
@@ -268,6 +294,8 @@ def gen_shell_case(rng: random.Random, want_multiclient: Optional[bool] = None,
         if accept is not None and not accept(comp_info(gen, ent)):
             continue
         enc = rand_cfg(rng, gen, ent, multiclient=wmc, hostile_text=hostile_text)
+        if big:
+            enlarge(rng, enc)
         if mc_position and enc.get('multiclient'):
             place_multiclient_port(rng, gen, ent, enc, mc_position)
         return gen, ent, enc, comp_info(gen, ent)
